@@ -203,6 +203,38 @@ BDD_RULE = ("operation programs over RobddBuilder (random/linear/reversed orders
 
 HOOK_COMMITS = ["fa17dcb"]
 
+# what each tie module of the translator route covers (used in the manifest's level notes)
+TIE_TEXT = {
+    "TieIte": "Ite::new (4 stages, both pointer types)",
+    "TieFF": "FiniteField::{new,negate,add,sub}",
+    "TieSem": "the one-line operations of Complex / ExpectedUtility / RealSemiring",
+    "TieOrders": "VarOrder (12 functions incl. new, new_last, lt, get, var_at_level)",
+    "TieBddCore": "the BDD builder core (38 functions: get_or_insert normalisation, ite_helper, the IteTable adapters, cond_with_alloc, the derived operations, smooth_helper, pointer accessors)",
+    "TieTables": "Lru::{new,insert,grow,get} and BackedRobinhoodTable::{new,propagate,grow,get_or_insert_by_hash,get_by_hash}",
+    "TieOptim": "marginal_map / meu / bb with their helpers, FiniteField::mul, Polynomial::{zero,one,add,mul}",
+    "TieCompile": "compile_cnf, compile_cnf_with_assignments, compile_logical_expr, compile_plan, BottomUpPlan::from_dtree, the BDD and vtree serialisers, from_sexpr, LogicalExpr::eval",
+    "TieSddCore": "the SDD builder core (35 functions: and and its four cases, canonicalize, unique_bdd / unique_or, the derived operations, condition; compress is outside the translator's grammar)",
+    "TieVTree": "vtree.rs / btree.rs / dtree.rs (28 functions incl. VTreeManager::new, lca, is_prime_*, from_dtree, DTree::from_cnf)",
+    "TieCnfOrd": "Cnf::{interaction_graph, min_fill_order, linear_order, force_order} and helpers",
+    "TieCnfUp": "Literal / VarSet / PartialModel / Cnf / CnfHasher / AssignmentIter and the propagator's decide loop, SATSolver::{decide,pop,…} (53 functions)",
+    "TieDnnf": "the decision-DNNF builder (conjoin_implied, topdown_h, compile_cnf_topdown, cond_helper, both get_or_insert)",
+    "TieFfi": "the diagram-building C exports (operation and argument positions), bdd_eq / topvar / low / high",
+    "TieSddQ": "SDD queries and the semantic SDD builder",
+    "TieScratch": "the BDD scratch mechanism and memoised folds",
+    "TieCli": "the command-line tools' glue and the remaining C wrappers",
+}
+
+
+def tie_note(modules):
+    parts = [TIE_TEXT[m.split(".")[-1]] for m in modules if m.split(".")[-1] in TIE_TEXT]
+    if not parts:
+        return ""
+    return (" Translator route (tools/gen_*.py, re-run by every check): the following source functions are REGENERATED from the Rust text "
+            "into Lean (Model/Gen*.lean) and proved equal to the model definitions the property theorems are about (Props/Tie*.lean; a function "
+            "whose source leaves the translator's grammar is listed as UNTRANSLATED in the evidence and is then tied by the streams only): "
+            + "; ".join(parts) + ".")
+
+
 # properties for which the technique genuinely cannot apply (none so far)
 NOT_APPLICABLE = {}
 
